@@ -14,12 +14,12 @@ ids are `<type>/<namespace rank>/<value>`.
 
   `nss [..]`                                 namespaces in byte order (`~` is the empty namespace); checked
   `file k plain|overlay table=[ranks]`       namespace table of file k (codes → ranks); checked duplicate-free
-  `block k t nsenc=[a b c d]`  => `[v:kind ..]`   kind ∈ c f r x
+  `block k t nsenc=[a b c d]`  => `[v:kind[:path,path] ..]`   kind ∈ c f r x; points: paths recorded against them
   `feat k id`                  => `content|nil`    file k alone: FindFeatureByID
   `ploc k id`                  => `e7|err`         file k alone: FindLocationByID
   `load [k ..]`                => `ok`
   `idx k q`                    => `[ids]`          per-index stream in the merged world; checked ascending
-  `find id` `has id` `loc id` `pts id` `each` `search q`   => `merged ## union`
+  `find id` `has id` `loc id` `prefs id` `pts id` `each` `search q`   => `merged ## union`
   `hasid id`                   => `true|false`     FeaturesByID.HasFeatureWithID
   `reset`
 -/
@@ -73,7 +73,12 @@ def parseEntry (s : String) : Option (Entry String String) :=
   | [v, k] => do
     let v ← v.toNat?
     let k ← parseKind k
-    pure ⟨v, k, "", none⟩
+    pure ⟨v, k, "", none, []⟩
+  | [v, k, ps] => do
+    let v ← v.toNat?
+    let k ← parseKind k
+    let ps ← (ps.splitOn ",").mapM parseID
+    pure ⟨v, k, "", none, ps⟩
   | _ => none
 
 def strictlyAscending : List String → Bool
@@ -116,13 +121,13 @@ def updateEntry (f : FileSt) (id : ID) (upd : Entry String String → Entry Stri
   pure ({ f with blocks := f.blocks.set! i b' }, e)
 
 /-- the references of a path from its content word `id|tags|path:a;b;c` (`@lat,lng` is a literal location) -/
-def pathRefs (content : String) : Option (List String) :=
+def refsOfContent (content : String) : Option (List String) :=
   match content.splitOn "|path:" with
   | [_, r] => some (if r == "" then [] else r.splitOn ";")
   | _ => none
 
 def modelPts (w : List Blk) (content : String) : String :=
-  match pathRefs content with
+  match refsOfContent content with
   | none => "not-a-path"
   | some rs =>
     let step (r : String) : Option String :=
@@ -237,6 +242,18 @@ def step (s : St) (op impl : String) : St × Verdict :=
     | some id =>
       let (m, u) := splitBoth impl
       (s, judge m u ((loc s.world id).getD "err") "location-union")
+    | none => (s, .bad)
+  | ["prefs", id] =>
+    match parseID id with
+    | some id =>
+      let (m, u) := splitBoth impl
+      let model := renderIDs (B6.Model.Merged.pathRefs s.world id)
+      -- the union build lists the paths in its own order: compare as sorted lists
+      match parseIDs m with
+      | some ids =>
+        if u != "-" && renderIDs (sortIDs ids) != u then (s, .propfail "paths-by-point-union")
+        else (s, if m == model then .ok else .diff model)
+      | none => (s, if u != "-" then .propfail "paths-by-point-union" else .diff model)
     | none => (s, .bad)
   | ["pts", id] =>
     match parseID id with
